@@ -139,6 +139,18 @@ CONTRACTS.append(Contract(
     descr="any date-time object; calendar.timegm abstract",
 ))
 
+
+# ---- the cached keyed HMAC follows the key (representation invariant: _keyed_hmac is None or compile_hmac(alg, key)) -----------
+CONTRACTS.append(Contract(
+    "TOTP.key (setter)", f"{T}::TOTP.key@setter",
+    params={"self": Obj(fields={"_key": __import__("pyvc.contract", fromlist=["Bytes"]).Bytes(), "_keyed_hmac": Const("hmac keyed with the OLD key"), "_encrypted_key": Const("old encrypted key")}),
+            "value": __import__("pyvc.contract", fromlist=["Bytes"]).Bytes()},
+    ensures=[("assigning a key installs it and drops everything derived from the previous key (the cached keyed HMAC, the encrypted form)",
+              lambda it, env: z3.And(it.to_zbool(it.truth(it.cmp_vals("==", it.resolve(env.lookup("self")).fields["_key"], env.lookup("value")))),
+                                     z3.BoolVal(it.resolve(env.lookup("self")).fields["_keyed_hmac"] is None and it.resolve(env.lookup("self")).fields["_encrypted_key"] is None)))],
+    descr="any previous state, any new key",
+))
+
 # the HMAC the tokens are truncated from: proved under C11, shared here because RFC 4226/6238 define the token over HMAC(key, counter)
 from contracts import c11 as _c11  # noqa: E402
 
@@ -157,4 +169,5 @@ MUTANTS = [
     ("normalize_token pads to digits+1", T, "            token = \"%0*d\" % (digits, token)\n", "            token = \"%0*d\" % (digits + 1, token)\n", "refute"),
     ("harmless: digits local inlined", T, "        digits = self.digits\n        assert 0 < digits < 11, \"digits: sanity check failed\"\n", "        digits = self.digits\n        assert 11 > digits > 0, \"digits: sanity check failed\"\n", "hold"),
     ("normalize_time: wall-clock tuple of a zone-aware date-time used", T, "            return calendar.timegm(time.utctimetuple())", "            return calendar.timegm(time.timetuple())", "refute", "normalize_time"),
+    ("TOTP.key setter keeps the HMAC keyed with the old key", T, "        self._encrypted_key = self._keyed_hmac = None", "        self._encrypted_key = None", "refute", "TOTP.key"),
 ]
